@@ -409,6 +409,8 @@ def path_ok(hits, row, role_refs, rl, own=None):
             continue
         if benign_atom(a, hits, row, role_refs, rl):
             continue
+        if a in row.get("assert_atoms", ()):
+            continue   # the passing side of an assertion: not a condition on which results depend (C06's business)
         bad.append(show_canon(a))
     return None if not bad else "; ".join(bad)[:300]
 
